@@ -207,7 +207,10 @@ fn case<C: Ops>(c: &mut Ctx, spec: &Spec, rng: &mut Rng, name: &str) {
     let expect = probe.contents();
     let len = expect.len();
     drop(probe);
-    let masks: Vec<u64> = if len <= 10 && (c.thorough() || len <= 6) {
+    let masks: Vec<u64> = if spec.recipe == crate::states::Recipe::HugeSparse {
+        // every sub-case rebuilds (and walks) the whole table: a handful of predicates instead of all subsets
+        vec![0, u64::MAX, rng.next(), rng.next()]
+    } else if len <= 10 && (c.thorough() || len <= 6) {
         (0..(1u64 << len)).collect()
     } else if len <= 10 {
         let mut v = vec![0, (1u64 << len) - 1];
@@ -361,6 +364,8 @@ fn zst_table<ZT: Elem>(c: &mut Ctx, rng: &mut Rng) {
 }
 
 pub fn run(c: &mut Ctx) {
+    // every sub-case rebuilds the state: very large sparse states are capped at 2^24 buckets
+    crate::states::set_huge_max_lg(24);
     c.run_scenarios(|c, idx, rng| {
         let recipe = RECIPES[((crate::util::mix(idx) / 10) % RECIPES.len() as u64) as usize];
         // one scenario in 40 on a very large sparse table (2^18..2^26 buckets)
